@@ -7,6 +7,8 @@
   * `Enum` by value: a member whose value is a JSON scalar and is not `==` to the value of a member
     listed before it (the by-value table finds it back);
   * `DateField` / `DateTime`: a value of the field's type whose `strftime` text `strptime` reads back;
+  * `Enum` by name over a mixin enum class: a member; DateString / TimeString / IPV4 / HostName: a str that
+    passes the format test;
   * `AnyOf[X, NoneField]`: None (when `X` itself refuses None) or a value of `X`'s fragment;
   * Array / Deque / Set / Map with String keys / positional Tuple / nested classes over these, any depth.
 -/
@@ -37,6 +39,8 @@ def xNoNone : XDecl → Bool
   | .decimal _ => true
   | .enumVal _ ms _ => !(ms.any fun m => pyEq .none m.2)
   | .temporal _ _ _ => true
+  | .enumName _ ms _ => !(ms.any fun m => pyEq .none m.2)
+  | .fmtStr _ _ => true
   | .opt _ => false
   | .seqOf _ _ => true
   | .setOf _ => true
@@ -58,6 +62,14 @@ def xFrag (XO : XOracles) : XDecl → PyVal → Bool
   | .temporal ty fmt _, v =>
     (match v with
       | .opaque t => xIsKind XO ty t && (XO.parse ty fmt (XO.format ty fmt t) == some t)
+      | _ => false)
+  | .enumName cls ms _, v =>
+    (match v with
+      | .enumv c n => c == cls && (ms.map (·.1)).contains n
+      | _ => false)
+  | .fmtStr kind _, v =>
+    (match v with
+      | .str s => XO.fmtOk kind s
       | _ => false)
   | .opt x, v => if v.isNone then xNoNone x else xFrag XO x v
   | .seqOf k x, v =>
